@@ -253,7 +253,7 @@ def concrete_selection(term, D, extra_env, expect_fn, trials):
     return None
 
 
-def vectors_witness(term, snap, i, N):
+def vectors_witness(term, snap, i, N, fixed=None, ordered=True):
     """Bind the minimum-image displacement vectors (the remove_pbc call inside the term) of particle 0 to concrete vectors of an
     inhomogeneous frame - a dense cluster far from the centre particle, a few particles around it - and evaluate the extracted
     selection.  Returns a description of the first frame on which the result is not the N nearest in order, else None."""
@@ -266,11 +266,8 @@ def vectors_witness(term, snap, i, N):
     rng = np.random.default_rng(5)
     for dim in (3, 2):
         L = 20.0
-        n = 60
-        r0 = 2.5
-        while r0 < 9.7:
-            r0 *= 1.04
-            for nv in (2, 3, 5):
+        for n, r0 in [(n_, 2.5 * 1.04 ** k_) for n_ in (60, 240) for k_ in range(1, 35)]:
+            for nv in ((fixed,) if fixed else (2, 3, 5)):
                 # particle 0 in a dilute region: nv - 1 close particles, one particle just beyond distance r0 along the first axis, three
                 # particles near the corner of the cube of half-width r0 (farther away, but with every component below r0), the rest
                 # of the frame in a dense cluster in the far corner of the box
@@ -279,11 +276,18 @@ def vectors_witness(term, snap, i, N):
                 corners = 0.97 * r0 * np.array([[1.0] * dim, [-1.0] * dim, [1.0] + [-1.0] * (dim - 1)])
                 cluster = rng.uniform(9.6, 10.0, (n - 1 - (nv - 1) - 1 - 3, dim))
                 V = np.vstack([np.zeros((1, dim)), near, face, corners, cluster])
-                env = {R_t: V, N: nv, i: 0, ("attr", snap, "nparticle"): n, ("attr", snap, "hmatrix"): np.eye(dim) * L, ("attr", snap, "boxlength"): np.ones(dim) * L,
+                env = {R_t: V, i: 0, ("attr", snap, "nparticle"): n, ("attr", snap, "hmatrix"): np.eye(dim) * L, ("attr", snap, "boxlength"): np.ones(dim) * L,
                        ("sym", "ppp"): np.ones(dim, dtype=int)}
+                if N is not None:
+                    env[N] = nv
+                for x in walk(term):        # the same quantities read from another frame object (e.g. the first frame)
+                    if x[0] == "attr" and x not in env and x[2] in ("nparticle", "hmatrix", "boxlength"):
+                        env[x] = {"nparticle": n, "hmatrix": np.eye(dim) * L, "boxlength": np.ones(dim) * L}[x[2]]
                 try:
                     got = [int(x) for x in np.asarray(cev(term, env)).ravel().tolist()]
-                except Exception:  # noqa
+                except Exception as _ex:  # noqa
+                    if __import__("os").environ.get("VERIF_DEBUG"):
+                        print("vectors_witness: not evaluable:", type(_ex).__name__, str(_ex)[:200])
                     return None
                 d = np.linalg.norm(V, axis=1)
                 order = [int(j) for j in np.argsort(d, kind="stable")]
@@ -292,7 +296,10 @@ def vectors_witness(term, snap, i, N):
                 wrong = 0
                 for base in (0, 1):
                     idx = [g - base for g in got]
-                    if len(idx) != nv or any(not (0 <= k < n) for k in idx) or [round(float(d[k]), 9) for k in idx] != want_d:
+                    got_d = [round(float(d[k]), 9) for k in idx] if all(0 <= k < n for k in idx) else None
+                    if got_d is not None and not ordered:
+                        got_d = sorted(got_d)
+                    if len(idx) != nv or got_d != want_d:
                         wrong += 1
                 if wrong == 2:
                     return (f"{dim}D frame of {n} particles in a box of length {L}: particle 0 with {nv - 1} close neighbours, one particle at distance {1.03 * r0:.3f} along x, "
